@@ -113,6 +113,30 @@ pub fn run(ctx: &mut Ctx) {
     });
     ctx.require(&r, &["accepted", "rejected"]);
 
+    // the whole character repertoire, not only the letters of the documented tokens: every ASCII character (and a
+    // set of non-ASCII ones) alone, and every ordered pair of ASCII characters, each bare and inside a valid picture
+    let mut chars: Vec<char> = (0u8..=127).map(|b| b as char).collect();
+    chars.extend(['\u{80}', '\u{a0}', '\u{e9}', '\u{ff}', '\u{3a9}', '\u{2003}', '\u{3000}', '\u{20ac}', '\u{ff0d}', '\u{ff1a}', '\u{1f980}']);
+    let nch = chars.len() as u64;
+    ctx.bound("character_repertoire", json!(format!("{} characters (all 128 ASCII + 11 non-ASCII incl. other blanks and full-width punctuation); all 128^2 ASCII pairs", chars.len())));
+    let chars_r = &chars;
+    let r = ctx.sweep_each("every_character_in_context", "every character of the repertoire in 6 contexts (alone, YYYY<c>MM, <c>DD, MI<c>, HH24<c><c>SS, DD <c> MON) and every ordered pair of ASCII characters in 2 contexts (alone, YYYY<c1><c2>DD)", nch + 128 * 128, 256, |idx, acc| {
+        acc.states += 1;
+        if idx < nch {
+            let c = chars_r[idx as usize];
+            for pic in [format!("{c}"), format!("YYYY{c}MM"), format!("{c}DD"), format!("MI{c}"), format!("HH24{c}{c}SS"), format!("DD {c} MON")] {
+                check_picture(acc, idx, pic.as_bytes(), probe, pf);
+            }
+        } else {
+            let k = idx - nch;
+            let (c1, c2) = ((k / 128) as u8 as char, (k % 128) as u8 as char);
+            for pic in [format!("{c1}{c2}"), format!("YYYY{c1}{c2}DD")] {
+                check_picture(acc, idx, pic.as_bytes(), probe, pf);
+            }
+        }
+    });
+    ctx.require(&r, &["accepted", "rejected"]);
+
     // blank runs of every length
     let maxb: usize = 600;
     ctx.bound("blank_runs", json!(format!("every length 1..={maxb}, alone and between two tokens")));
